@@ -497,7 +497,7 @@ func (ex *Exec) selectStmt(fr *Frame, x *ssa.Select) Value {
 	}
 	ready := make([]*Term, n)
 	never := make([]*Term, n) // condition under which the case can never become ready
-	var latest []*Term       // earliest-wake bounds
+	var latest []*Term        // earliest-wake bounds
 	for i, st := range x.States {
 		ch := chans[i]
 		switch {
